@@ -273,4 +273,178 @@ SimplifyOK(e, idx) ==
   /\ Has(e, "ARGS") => Chk("ARGS", idx, e.argsSame)
   /\ Has(e, "DET") => Chk("DET", idx, e.det)
   /\ Has(e, "C16") => Chk("C16", idx, SimplifyOK16(e))
+
+(***************************************************************************)
+(* The four clip types on one input (C19).  In(x, p): p is in the region   *)
+(* a result path set x describes (non-zero reading; by C02 all readings    *)
+(* agree).  Area identities use exact doubled areas; the tolerance is      *)
+(* 2 units x total edge length, over-estimated by the 1-norm edge length   *)
+(* of all inputs and results involved and doubled because areas are.       *)
+(***************************************************************************)
+In(x, p) == WnPaths(p, x) # 0
+
+C19OK(e) ==
+  LET all == <<e.subj, e.clip, e.i, e.u, e.d, e.x, e.d2, e.us, e.uc>>
+      FarAll(p) == \A k \in 1..Len(all) : FarClosed(p, all[k], Band4)
+      L == Perim1Paths(e.subj) + Perim1Paths(e.clip) + Perim1Paths(e.i) + Perim1Paths(e.u) + Perim1Paths(e.d)
+           + Perim1Paths(e.x) + Perim1Paths(e.d2) + Perim1Paths(e.us) + Perim1Paths(e.uc)
+      tol == 4 * L
+      aI == Area2Paths(e.i)  aU == Area2Paths(e.u)  aD == Area2Paths(e.d)  aX == Area2Paths(e.x)
+      aD2 == Area2Paths(e.d2)  aS == Area2Paths(e.us)  aC == Area2Paths(e.uc)
+  IN
+  /\ Abs((aU + aI) - (aS + aC)) <= tol
+  /\ Abs(aX - (aU - aI)) <= tol
+  /\ Abs(aD - (aS - aI)) <= tol
+  /\ Abs((aD + aI + aD2) - aU) <= tol
+  /\ e.us = e.us2
+  /\ \A k \in 1..Len(e.probes) :
+       LET p == e.probes[k] IN
+       FarAll(p) =>
+         /\ In(e.x, p) = (In(e.u, p) /\ ~In(e.i, p))
+         /\ In(e.d, p) = (In(e.us, p) /\ ~In(e.i, p))
+         /\ ~(In(e.d, p) /\ In(e.i, p)) /\ ~(In(e.d, p) /\ In(e.d2, p)) /\ ~(In(e.i, p) /\ In(e.d2, p))
+         /\ In(e.u, p) = (In(e.d, p) \/ In(e.i, p) \/ In(e.d2, p))
+
+BoolGroupOK(e, idx) ==
+  /\ Chk("OUT", idx, OutOK(e))
+  /\ Has(e, "ARGS") => Chk("ARGS", idx, e.argsSame)
+  /\ Has(e, "C19") => Chk("C19", idx, C19OK(e))
+
+(***************************************************************************)
+(* Independence of spelling (C17).  Every variant carries its own inputs;  *)
+(* the specification first checks that they really are the stated         *)
+(* re-spelling of the base inputs (a mismatch is a generator error), then  *)
+(* that the variant's region equals the base region at the (mapped)        *)
+(* probes outside the band of the base inputs.                             *)
+(***************************************************************************)
+SymPt(k, p) == CASE k = 0 -> p
+                 [] k = 1 -> <<-p[2], p[1]>>
+                 [] k = 2 -> <<-p[1], -p[2]>>
+                 [] k = 3 -> <<p[2], -p[1]>>
+                 [] k = 4 -> <<-p[1], p[2]>>
+                 [] k = 5 -> <<p[1], -p[2]>>
+                 [] k = 6 -> <<p[2], p[1]>>
+                 [] OTHER -> <<-p[2], -p[1]>>
+MapPath(k, path) == [i \in 1..Len(path) |-> SymPt(k, path[i])]
+MapPaths(k, paths) == [j \in 1..Len(paths) |-> MapPath(k, paths[j])]
+RevPath(path) == [i \in 1..Len(path) |-> path[Len(path) + 1 - i]]
+RevPaths(paths) == [j \in 1..Len(paths) |-> RevPath(paths[j])]
+\* replace path number j (counted over subject then clip) by f(path)
+WithPath(subj, clip, j, np) ==
+  IF j <= Len(subj) THEN <<[subj EXCEPT ![j] = np], clip>> ELSE <<subj, [clip EXCEPT ![j - Len(subj)] = np]>>
+PathNo(subj, clip, j) == IF j <= Len(subj) THEN subj[j] ELSE clip[j - Len(subj)]
+
+VariantInputs(e, v) ==      \* <<subject, clip, fill rule>> the variant must have been run with
+  LET q == IF v.j >= 1 /\ v.j <= Len(e.subj) + Len(e.clip) THEN PathNo(e.subj, e.clip, v.j) ELSE <<>> IN
+  CASE v.kind = "perm"     -> <<[i \in 1..Len(e.subj) |-> e.subj[v.perm[i]]], e.clip, e.fr>>
+    [] v.kind = "rot"      -> WithPath(e.subj, e.clip, v.j, Rotate(q, v.k)) \o <<e.fr>>
+    [] v.kind = "dupclose" -> WithPath(e.subj, e.clip, v.j, Append(q, q[1])) \o <<e.fr>>
+    [] v.kind = "dupany"   -> WithPath(e.subj, e.clip, v.j, SubSeq(q, 1, v.k) \o <<q[v.k]>> \o SubSeq(q, v.k + 1, Len(q))) \o <<e.fr>>
+    [] v.kind = "rev1"     -> WithPath(e.subj, e.clip, v.j, RevPath(q)) \o <<e.fr>>
+    [] v.kind = "revall"   -> <<RevPaths(e.subj), RevPaths(e.clip), e.fr>>
+    [] v.kind = "revneg"   -> <<RevPaths(e.subj), RevPaths(e.clip), 5 - e.fr>>
+    [] v.kind = "swap"     -> <<e.clip, e.subj, e.fr>>
+    \* a reflection (k >= 4) reverses every orientation, so winding numbers change sign: under
+    \* Positive / Negative the mirrored region is the one of the exchanged rule
+    [] v.kind = "sym"      -> <<MapPaths(v.k, e.subj), MapPaths(v.k, e.clip),
+                                IF v.k >= 4 /\ e.fr \in {2, 3} THEN 5 - e.fr ELSE e.fr>>
+    [] OTHER -> <<>>
+
+VariantLegal(e, v) ==
+  /\ v.ct = e.ct
+  /\ v.kind = "rev1" => e.fr = 0
+  /\ v.kind = "revall" => e.fr \in {0, 1}
+  /\ v.kind = "revneg" => e.fr \in {2, 3}
+  /\ v.kind = "swap" => e.ct \in {1, 2, 4}
+  /\ v.kind = "perm" => {v.perm[i] : i \in 1..Len(v.perm)} = 1..Len(e.subj)
+  /\ VariantInputs(e, v) = <<v.subj, v.clip, v.fr>>
+
+C17OK(e) ==
+  /\ e.sol2same
+  /\ \A n \in 1..Len(e.vars) :
+       LET v == e.vars[n] IN
+       /\ v.out = "ok"
+       /\ \A k \in 1..Len(e.probes) :
+            LET p == e.probes[k]
+                q == IF v.kind = "sym" THEN SymPt(v.k, p) ELSE p IN
+            (FarClosed(p, e.subj, Band4) /\ FarClosed(p, e.clip, Band4)) =>
+               /\ In(v.sol, q) = In(e.sol, p)
+               /\ In(v.sol, q) = Expected(v.ct, v.fr, v.subj, v.clip, q)
+
+BoolVariantsOK(e, idx) ==
+  /\ Chk("OUT", idx, OutOK(e))
+  /\ Chk("GENERATOR", idx, \A n \in 1..Len(e.vars) : VariantLegal(e, e.vars[n]))
+  /\ Has(e, "C17") => Chk("C17", idx, C17OK(e))
+
+(***************************************************************************)
+(* Engine objects (C12).  An engine is reduced to the paths it was given   *)
+(* (closed subject, closed clip, open subject, each in the order added and *)
+(* in integer units, i.e. after quantisation for the floating-point kind)  *)
+(* plus two history flags that exist in the implementation (a tree         *)
+(* execution happened, number of executions) and must NOT be observable.   *)
+(* Execute does not change the path state; its result must be the one a    *)
+(* fresh engine returns for the same paths (observed: e.fresh) and must    *)
+(* describe the region the paths in the SPECIFICATION's state demand.      *)
+(***************************************************************************)
+Pow10(p) == CASE p = 0 -> 1 [] p = 1 -> 10 [] p = 2 -> 100 [] p = 3 -> 1000 [] OTHER -> 10000
+ScalePaths(paths, k) == [j \in 1..Len(paths) |-> [i \in 1..Len(paths[j]) |-> <<paths[j][i][1] * k, paths[j][i][2] * k>>]]
+
+NewEngineRec(kind, prec) ==
+  [kind |-> kind, prec |-> prec, subj |-> <<>>, clip |-> <<>>, open |-> <<>>, usedTree |-> FALSE, nexec |-> 0]
+
+EngNew(id, kind, prec) ==
+  /\ engines' = (id :> NewEngineRec(kind, prec)) @@ engines
+  /\ UNCHANGED <<offsets, pkg>>
+
+EngAdd(id, paths, ptype, isOpen) ==
+  LET g == engines[id]
+      ps == IF g.kind = "D" THEN ScalePaths(paths, Pow10(g.prec)) ELSE paths
+  IN
+  /\ engines' = [engines EXCEPT ![id] =
+        IF isOpen THEN (IF ptype = 0 THEN [g EXCEPT !.open = @ \o ps] ELSE g)     \* open clip paths are not a thing
+        ELSE IF ptype = 0 THEN [g EXCEPT !.subj = @ \o ps] ELSE [g EXCEPT !.clip = @ \o ps]]
+  /\ UNCHANGED <<offsets, pkg>>
+
+EngExecEffect(id, form) ==
+  /\ engines' = [engines EXCEPT ![id].nexec = @ + 1, ![id].usedTree = @ \/ (form = "tree")]
+  /\ UNCHANGED <<offsets, pkg>>
+
+\* polygons of a tree observation (list of [parent |-> index or 0, poly |-> path] in depth-first order)
+TreePolys(tree) == [k \in 1..Len(tree) |-> tree[k].poly]
+
+C12OK(e) ==
+  LET g == engines[e.id]
+      closedSol == IF e.form = "tree" THEN TreePolys(e.tree) ELSE e.sol IN
+  /\ e.id \in DOMAIN engines
+  \* same answer as a fresh engine given the same paths in one call (same add order: same sequences)
+  /\ e.sol = e.fresh.sol /\ e.solOpen = e.fresh.solOpen /\ e.tree = e.fresh.tree
+  \* and the answer is the one the paths in the specification's state demand
+  /\ \A k \in 1..Len(e.probes) : RegionOKAt(e.ct, e.fr, g.subj, g.clip, closedSol, e.probes[k])
+  \* a fresh engine given the paths in another order describes the same region
+  /\ \A k \in 1..Len(e.probes) :
+        (FarClosed(e.probes[k], g.subj, Band4) /\ FarClosed(e.probes[k], g.clip, Band4))
+           => (In(closedSol, e.probes[k]) = In(e.freshPerm, e.probes[k]))
+
+EngExecOK(e, idx) ==
+  /\ Chk("OUT", idx, OutOK(e))
+  /\ Has(e, "ARGS") => Chk("ARGS", idx, e.argsSame)
+  /\ Has(e, "C12") => Chk("C12", idx, C12OK(e))
+
+(***************************************************************************)
+(* ClipperOffset objects (C12 part): groups accumulate; Execute64 answers  *)
+(* like a fresh object with the same groups.                               *)
+(***************************************************************************)
+OffNew(id, miter4, arc4, pc, rev) ==
+  /\ offsets' = (id :> [miter4 |-> miter4, arc4 |-> arc4, pc |-> pc, rev |-> rev, groups |-> <<>>, nexec |-> 0]) @@ offsets
+  /\ UNCHANGED <<engines, pkg>>
+OffAdd(id, paths, jt, et) ==
+  /\ offsets' = [offsets EXCEPT ![id].groups = Append(@, [paths |-> paths, jt |-> jt, et |-> et])]
+  /\ UNCHANGED <<engines, pkg>>
+OffExecEffect(id) ==
+  /\ offsets' = [offsets EXCEPT ![id].nexec = @ + 1]
+  /\ UNCHANGED <<engines, pkg>>
+OffExecOK(e, idx) ==
+  /\ Chk("OUT", idx, OutOK(e))
+  /\ Has(e, "C12") => Chk("C12", idx, e.id \in DOMAIN offsets /\ e.sol = e.fresh.sol
+                                       /\ Len(offsets[e.id].groups) = e.ngroups)
 =============================================================================
